@@ -100,7 +100,8 @@ private:
 
         for (Index i = k; i < m_ncv; i++)
         {
-            if (is_complex(m_ritz_val[i]) && is_conj(m_ritz_val[i], m_ritz_val[i + 1]))
+            // The conjugate partner, if any, is the next element: never look past the end of the array
+            if (is_complex(m_ritz_val[i]) && i + 1 < m_ncv && is_conj(m_ritz_val[i], m_ritz_val[i + 1]))
             {
                 // H - mu * I = Q1 * R1
                 // H <- R1 * Q1 + mu * I = Q1' * H * Q1
